@@ -2,13 +2,15 @@
 EXTENDS Corners, Json
 VARIABLES mode, glob, objs, phase
 vars == <<mode, glob, objs, phase>>
-Init == mode \in {"osu", "taiko", "catch", "mania"} /\ glob \in Globals /\ objs = <<>> /\ phase = "root"
+Init == IF Domain = "maniaconv"
+        THEN mode = "osu" /\ glob \in ManiaGlobals /\ objs = <<>> /\ phase = "root"
+        ELSE mode \in {"osu", "taiko", "catch", "mania"} /\ glob \in Globals /\ objs = <<>> /\ phase = "root"
 Next == \/ /\ phase = "root" /\ objs = <<>>
            /\ \/ (objs' = <<>> /\ phase' = "empty")
-              \/ (\E o \in FirstObjs : objs' = <<o>> /\ phase' = "objs")
+              \/ (\E o \in (IF Domain = "maniaconv" THEN ManiaFirst ELSE FirstObjs) : objs' = <<o>> /\ phase' = "objs")
            /\ UNCHANGED <<mode, glob>>
         \/ /\ phase = "objs" /\ Len(objs) < MaxObjs
-           /\ \E o \in NextObjs : objs' = Append(objs, o)
+           /\ \E o \in (IF Domain = "maniaconv" THEN ManiaNext ELSE NextObjs) : objs' = Append(objs, o)
            /\ UNCHANGED <<mode, glob, phase>>
 Printer == phase # "root" => PrintT(<<"REPLAY", ToJson([domain |-> Domain, mode |-> mode, glob |-> glob, objs |-> objs])>>)
 =============================================================================
